@@ -68,7 +68,15 @@ def output_balanced(tree):
                     apps = [i for i, st in enumerate(m.body) if is_call(st, "append")]
                     pops = [i for i, st in enumerate(m.body) if is_call(st, "pop")]
                     inner = [s for s in mutation_sites(ast.Module(body=[m], type_ignores=[]))]
-                    no_return = not any(isinstance(n, ast.Return) for n in ast.walk(m))
+                    def own_nodes(node):
+                        # statements of the method itself: a nested def / lambda / class runs in
+                        # its own frame, its `return` does not leave `output`
+                        for ch in ast.iter_child_nodes(node):
+                            if isinstance(ch, (ast.FunctionDef, ast.AsyncFunctionDef, ast.Lambda, ast.ClassDef)):
+                                continue
+                            yield ch
+                            yield from own_nodes(ch)
+                    no_return = not any(isinstance(n, ast.Return) for n in own_nodes(m))
                     return (len(apps) == 1 and len(pops) == 1 and pops[0] == len(m.body) - 1
                             and len(inner) == 2 and no_return)
     return False
